@@ -62,14 +62,14 @@ type c12EOR struct {
 
 type c12Case struct {
 	// server configuration for R
-	GR     bool    `json:"cfg_gr"`
-	Notif  bool    `json:"cfg_notification"`
-	LLGR   bool    `json:"cfg_llgr"`
-	MpGR   [2]bool `json:"cfg_mp_gr"`
-	MpLLGR [2]bool `json:"cfg_mp_llgr"`
-	Open   c12Open `json:"open"`
+	GR     bool       `json:"cfg_gr"`
+	Notif  bool       `json:"cfg_notification"`
+	LLGR   bool       `json:"cfg_llgr"`
+	MpGR   [2]bool    `json:"cfg_mp_gr"`
+	MpLLGR [2]bool    `json:"cfg_mp_llgr"`
+	Open   c12Open    `json:"open"`
 	Routes []c12Route `json:"routes"`
-	Loss   int     `json:"loss"`
+	Loss   int        `json:"loss"`
 	// after the loss
 	Reconnect   bool     `json:"reconnect"`
 	ReconnectAt int      `json:"reconnect_at"` // seconds after the loss (< restart time)
